@@ -296,6 +296,8 @@ fn apply_raw<V: VirtualFileSystem>(fs: &V, op: &Op) -> Outcome {
                         Err(er) => out.push(format!("Err({})", err_kind(&er))),
                     }
                 }
+                // entries with equal names (a file and a followed link to it) have no defined order
+                out.sort();
                 Ok(out.join(";"))
             }),
             |x| x,
